@@ -162,13 +162,14 @@ type pg struct {
 	vars      map[ak][]string // declared variable names by kind
 	decl      []string
 	nv        int
+	reVars    []string // declared regex variables (referenced by name inside lambdas)
 }
 
 var strPool = []string{"'cpu'", "'usage_idle'", "'host'", "'a b'", "'it\\'s'", "'back\\\\slash'", "'q\"q'", "'''triple 'quoted' text'''", "'''multi\nline'''", "'é✓'", "'{{ .ID }} is {{ .Level }}'", "'x,y=z'", "'/tmp/a.log'", "'%'", "'a\\b'", "'tab\there'"}
 var durPool = []string{"10s", "5m", "1h", "100ms", "15u", "20µs", "2d", "1w", "90m", "1500ms", "3ns"}
 var intPool = []string{"1", "2", "5", "10", "100", "007", "21", "3"}
 var floatPool = []string{"1.0", "0.5", "95.0", "0.25", "10.75", "100.0", "3.14159"}
-var rePool = []string{"/abc/", "/^a.*z$/", "/a\\/b/", "/[0-9]+/", "/\\./"}
+var rePool = []string{"/abc/", "/^a.*z$/", "/a\\/b/", "/[0-9]+/", "/\\./", "/^\\/var\\/log\\//", "/\\/$/"}
 
 func (g *pg) lit(k ak) string {
 	r := g.r
@@ -225,6 +226,10 @@ func (g *pg) lambda() string {
 	}
 	if r.Chance(0.1) && len(g.vars[aF]) > 0 {
 		s = s + " AND \"f1\" > " + g.vars[aF][0]
+	}
+	if kind == "bool" && len(g.reVars) > 0 && r.Chance(0.5) {
+		// a regex declared as a variable and referenced by name
+		s = "(" + s + ") " + r.Pick([]string{"AND", "OR"}) + " \"s1\" " + r.Pick([]string{"=~", "!~"}) + " " + g.reVars[r.Intn(len(g.reVars))]
 	}
 	return s
 }
@@ -357,9 +362,10 @@ func (g *pg) program(batch bool) string {
 		name := g.newVar()
 		sb.WriteString("var " + name + " = [" + g.lit(aS) + ", " + g.lit(aS) + "]\n")
 	}
-	if r.Chance(0.15) {
+	if r.Chance(0.25) {
 		name := g.newVar()
 		sb.WriteString("var " + name + " = " + rePool[r.Intn(len(rePool))] + "\n")
+		g.reVars = append(g.reVars, name)
 	}
 	if r.Chance(0.2) {
 		name := g.newVar()
